@@ -10,6 +10,7 @@ import collections
 import os
 import shutil
 import vlib
+from props import vmlib
 
 BATCH = 150
 
@@ -160,7 +161,11 @@ def run(prop, tier, seed):
     distinct = len({o["stmts"] for o in ops})
     nontrivial = len({(o["op"], p["a"], p["b"]) for p in pairs for o in p["ops"]
                       if o["cat"].split("|")[1] in ("overflow", "divzero") or len(p["a"]) > 9 or len(p["b"]) > 9})
+    # instruction level: a sample of the programs is re-run with the VM hooks on; every executed instruction (operand values,
+    # result, error kind), every optimizer rewrite and every assembled instruction is validated by spec/vm/TraceVM.tla
+    vmcov = vmlib.trace_leg(rep, prop, progs, wd, 12 if quick else 400, jobs=6)
     rep.coverage = {
+        **vmcov,
         "programs": len(progs) + len(redo), "disagreements_checked": len(ops),
         "evaluations": len(ops), "distinct_nontrivial": nontrivial,
         "rule": "one evaluation = one operation (operator x operand pair x operand form) whose observed result/error kind was "
